@@ -961,7 +961,7 @@ func backoffs(r *ev.Run) {
 	}
 	var cfgs []cfg
 	cfgs = append(cfgs, cfg{backoff.DefaultConfig.BaseDelay, backoff.DefaultConfig.MaxDelay, backoff.DefaultConfig.Multiplier, backoff.DefaultConfig.Jitter})
-	for _, mx := range []time.Duration{0, 1, time.Millisecond, 2 * time.Second, 15 * time.Second, day} {
+	for _, mx := range []time.Duration{0, 1, time.Millisecond, 2 * time.Second, 15 * time.Second, day, 2500 * time.Microsecond, 700 * time.Microsecond, 10*time.Second + 600*time.Microsecond, 999999 * time.Nanosecond, 1500 * time.Nanosecond} {
 		for _, base := range []time.Duration{0, 1, time.Millisecond, 2 * time.Second, mx} {
 			if base > mx {
 				continue
